@@ -100,7 +100,7 @@ def run_property(prop, tier, seed, only=None, jobs=None):
     contracts.load_all()
     load_tasks()
     timeout_ms = 10000 if tier == 'quick' else 60000
-    ks = [c.key for c in contracts.BY_PROP.get(prop, []) if c.mode == 'check' and not c.inline]
+    ks = [c.key for c in contracts.BY_PROP.get(prop, []) if c.mode == 'check' and (not c.inline or c.also_check)]
     if only:
         ks = [k for k in ks if only in k[1] or only in k[0]]
     tidx = [i for i, t in enumerate(TASKS) if prop in t['props'] and (not only or only in t['name'])]
@@ -129,7 +129,8 @@ def finish(prop, tier, seed, k1, tres, t0):
                               normal_exits=r.get('normal_exits'), exceptional_exits=r.get('exc_exits'),
                               contract=r.get('contract_file'),
                               obligations=len(r.get('obligations', [])),
-                              bounded=r.get('bounded', False)))
+                              bounded=r.get('bounded', False), wall_s=r.get('wall'),
+                              native=r.get('native')))
         for a in r.get('assumptions', []):
             assumptions.add('%s: %s' % (r['key'], a))
         if r.get('error') is None and not r.get('obligations'):
